@@ -39,7 +39,7 @@ BOUNDED = [
         "script": "replay/c07_native.py",
         "args_quick": [],
         "args_thorough": ["--thorough"],
-        "bound": "quick: every 5th harvested test SQL with its dialect + 30 generated statements x 14 whole-text rewrites (other whitespace, line breaks, block / line comments at every boundary, keyword case x3, identifier case, quoting of lower-case identifiers for ansi, 5 trailing-semicolon forms) + 3 seeded single boundaries x 3 rewrites; thorough: whole harvested corpus + 10 TPC-DS queries + all generated statements, every single boundary x 3 rewrites",
+        "bound": "quick: every 5th harvested test SQL with its dialect + 30 generated statements x 14 whole-text rewrites (other whitespace, line breaks, block / line comments at every boundary, keyword case x3, identifier case, quoting of lower-case identifiers for ansi, 5 trailing-semicolon forms) + 3 seeded single boundaries x 3 rewrites; thorough: whole harvested corpus + 10 TPC-DS queries + all generated statements, up to 12 evenly spaced single boundaries per input x 3 rewrites",
     }
 ]
 LEVEL_TEXT = (
